@@ -1043,10 +1043,12 @@ def oracle_run(scn, r):
     if now_left:
         late_start = [k for k, b in enumerate(scn['blocks']) if 'L' in b.get('flags', '') and b['kind'] == 'async'
                       and k not in started and ('start', k) in [(kind, kk) for kind, kk, _x, _t in log]]
-        f6 = bool(late_start) and all(x == f'main:{late_start[0]}' for x in now_left)
+        f6 = bool(late_start) and f'main:{late_start[0]}' in now_left
         # known finding: the asynchronous clean-up of a main-task block is disabled (stop_timeout 0): nobody cancels the task
         sto0 = {f'main:{k}' for k, b in enumerate(scn['blocks']) if b['kind'] == 'async' and b.get('sto') == 0 and k in started}
-        f7 = bool(sto0) and set(now_left) <= sto0
+        f7 = bool(sto0) and bool(set(now_left) & sto0)
+        if not set(now_left) <= sto0 | ({f'main:{late_start[0]}'} if late_start else set()):
+            f6 = f7 = False     # something else is pending as well
         out.append({'clause': 'no_live_task_when_finished',
                     'what': f"pending at the moment {'run() returned' if scn.get('runner') == 'run' else 'the simulation task finished'}: {now_left}"
                             + (' -- the main task of a block whose start() raised after AddonMainTask.start()' if f6 else '')
